@@ -1,9 +1,4 @@
 SPECIFICATION Spec
 CONSTANT Deviations <- DevSet
 INVARIANT Emit
-INVARIANT BudgetInv
-INVARIANT ScopeBalance
-INVARIANT SizeInv
-PROPERTY LimitExact
-PROPERTY NoEffectAtLimit
 CHECK_DEADLOCK FALSE
